@@ -197,7 +197,7 @@ impl Monitor for C02 {
         "C02"
     }
     fn gens(&self, tier: Tier) -> Vec<(&'static str, u64)> {
-        vec![("layers", tier.pick(9720, 324_000)), ("networks", tier.pick(1200, 30_000))]
+        vec![("layers", tier.pick(486_000, 4_860_000)), ("networks", tier.pick(60_000, 600_000))]
     }
     fn rule(&self) -> &'static str {
         "layers: case i -> layer kind (dense, conv, deconv, pool; conv and deconv twice as often), activation (i/6 mod 5), geometry from the covering walk over the 108 per-axis (kernel 1..3, stride 1..3, padding 0..3, dilation 1..3) tuples on each axis independently (rectangular kernels, asymmetric stride/padding/dilation), channels/filters 1..3, extents from the smallest valid one up to 8, repetition-free weights and inputs in [-1.5,1.5], inputs scaled by 1 / 1e-12 / 1e-6 / 1e6 / 1e12; the layer's public forward is called with the 3-D tensor and with its row-major flattening; pre- and post-activation must lie within the running f32 error bound (refmodel::E) of the gather-form reference operator and have its shape. networks: random sequences (depth 1..5, dense->spatial and spatial->dense transitions) - predict and every intermediate output of forward vs the composed reference, predict == manual composition of the layers' own forward (bit-exact), flat input representation too. Distinct = distinct configuration descriptors."
